@@ -312,6 +312,9 @@ impl Kernel {
             let mut entries: Vec<Vec<u8>> = vec![b".".to_vec(), b"..".to_vec()];
             let is_task = self.dirs[&key].is_task;
             if is_task {
+                // what counts as "the enumeration" is the last listing of the task directory: the wait
+                // for the stop of a process whose initial thread has exited lists it too, before
+                self.gt.enumerated.clear();
                 for t in &self.threads {
                     if t.life != Life::Gone {
                         entries.push(dec(t.tid as i64));
